@@ -49,7 +49,7 @@ REQUIRED = ["tree_resamplings", "branches_checked", "sample_points_checked", "ze
             "non_soma_roots", "instance_reused", "branch_isometric_checked", "integer_coordinate_branches",
             "branch_linear_checked", "branch_smoother_checked", "tree_smoother_checked",
             "tap_assembler", "tap_resample"]
-FLOOR = {"quick": 1200, "thorough": 24000}
+FLOOR = {"quick": 850, "thorough": 17000}
 SHARDS = {"quick": 8, "thorough": 16}
 TOL = 1e-4
 
